@@ -33,6 +33,7 @@ def run(chk):
             bad += tm.mon_c09(sim, sent, meta['term'], meta['hard'])
         bad += [b for b in tm.mon_c04(sim) if 'sess-term' in b[0]]
         bad += [b for b in tm.mon_c01(sim, sent, expect_complete=False)]
+        bad += tm.mon_sources_after_close(sim)
         sc.report(chk, 'C09', bad, sim, sent, meta)
         sims.append((sim, '%s %d' % (flavour, i)))
         if len(sims) >= 40:
@@ -67,6 +68,7 @@ def run(chk):
             bad += tm.mon_c09(sim, sent, meta['term'], False)
         bad += [b for b in tm.mon_c04(sim) if 'sess-term' in b[0]]
         bad += [b for b in tm.mon_c01(sim, sent, expect_complete=False)]
+        bad += tm.mon_sources_after_close(sim)
         sc.report(chk, 'C09', bad, sim, sent, meta)
         sims.append((sim, 'coalesced %d' % i))
     sc.compare_with_model(chk, sims, with_timers=True)
